@@ -108,12 +108,24 @@ def lemma(name, **kw):
     return lm
 
 
-def record(name, **fields):
+def record(name_, **fields):
+    name = name_
     RECORDS[name] = dict(fields)
     return name
 
 
-def dict_record(name, **fields):
+TUPLE_RECORDS = set()   # namedtuples: immutable records that unpack into their fields in order
+
+
+def tuple_record(name_, **fields):
+    name = name_
+    RECORDS[name] = dict(fields)
+    TUPLE_RECORDS.add(name)
+    return name
+
+
+def dict_record(name_, **fields):
+    name = name_
     RECORDS[name] = dict(fields)
     DICT_RECORDS.add(name)
     return name
